@@ -221,7 +221,7 @@ def junction_versors(frame, fit, vidx):
 
 
 def static_events(case, t, k, sim, rng, want, build_opts=None, solve_opts=None, ids=None, resample=None,
-                  equilibrium=True, extra_env=None, group=None, with_pressure=False):
+                  equilibrium=True, extra_env=None, group=None, with_pressure=False, phys=None):
     """Run the real pipeline once; returns the list of trace events (all ints/strings/bools)."""
     import forsys as fs
     build_opts = dict(build_opts or {})
@@ -298,7 +298,10 @@ def static_events(case, t, k, sim, rng, want, build_opts=None, solve_opts=None, 
         sev["raised"] = type(exc).__name__ + ": " + traceback.format_exc()[-300:]
     evs.append(sev)
     if with_pressure and not sev["raised"]:
-        evs += pressure_events(case, forsys, frame, t, o, vidx, cidx, cell_of_model, rng, resample)
+        evs += pressure_events(case, forsys, frame, t, o, vidx, cidx, cell_of_model, rng, resample, lin=phys is None)
+    if phys is not None:
+        o["model_cell_of_desc"] = [perm[i] if perm else i for i in range(len(desc_cells))]
+        evs.append(phys_event(case, phys[0], t, o, frame, forsys, vidx, phys[1]))
     return evs
 
 
@@ -319,7 +322,7 @@ def project_pressure_matrix(pm, frame, cidx):
     return {"rows": rows, "removed": [cidx.get(cid, 0) for cid, col in order.items() if col in removed]}
 
 
-def pressure_events(case, forsys, frame, t, o, vidx, cidx, cell_of_model, rng, resample):
+def pressure_events(case, forsys, frame, t, o, vidx, cidx, cell_of_model, rng, resample, lin=True):
     evs = []
     bev = {"case": case, "ev": "BuildPressure", "raised": "", "resampled": bool(resample)}
     try:
@@ -351,6 +354,8 @@ def pressure_events(case, forsys, frame, t, o, vidx, cidx, cell_of_model, rng, r
         evs.append(sev)
         return evs
     evs.append(sev)
+    if not lin:
+        return evs
     # linearity: pressures for assigned tension vectors T1, T2 and a*T1 + b*T2 on the same frame
     try:
         internal = list(frame.internal_big_edges)
@@ -411,6 +416,11 @@ def run_spec(args):
     # it at 'ignore' until the next solve; cases must not depend on which case ran before them in the worker)
     np.seterr(all="raise")
     rng = random.Random(spec.get("seed", 0))
+    if spec.get("pair"):
+        try:
+            return case, pair_events(case, spec, rng)
+        except PreStepRaised as exc:
+            return case, [{"case": case, "ev": "Skip", "reason": str(exc)[:300]}]
     if spec.get("dynamic"):
         try:
             return case, dynamic_events(case, spec, rng)
@@ -606,4 +616,84 @@ def dynamic_events(case, spec, rng):
         import traceback
         sev["raised"] = type(exc).__name__ + ": " + traceback.format_exc()[-300:]
     evs.append(sev)
+    return evs
+
+
+# ------------------------------------------------------------------------------------------------
+# two-run equivariance cases (C06: similarity / units, C07: labels / storage order / orientation)
+# ------------------------------------------------------------------------------------------------
+def phys_event(case, run, t, o, frame, forsys, vidx, g):
+    """results keyed by PHYSICAL identity (junction-level vertex ids of the tissue, model cell index), obtained by
+    undoing the known relabelling of this run (projection, no judgement)"""
+    info = o["info"]
+    inv = {nid: v for v, nid in info["newid"].items()}
+    ekeys = sorted(t["edges"])
+    qof = {frozenset(e): i + 1 for i, e in enumerate(ekeys)}
+
+    def q_of(be):
+        vs = be.vertices
+        a, b = inv.get(vs[0].id), inv.get(vs[-1].id)
+        return qof.get(frozenset((a, b)), 0) if a is not None and b is not None else 0
+
+    internal = list(frame.internal_big_edges)
+    x = forsys.forces.get(0)
+    tens = []
+    if x is not None:
+        for k_, be in enumerate(internal):
+            tens.append([q_of(be), fx(float(x[k_]))])
+    fm = forsys.force_matrices.get(0)
+    coefs, junctions = [], []
+    if fm is not None:
+        M = np.asarray(fm.matrix, dtype=float)
+        colq = []
+        for be_ids in fm.big_edges_to_use:
+            a, b = inv.get(be_ids[0]), inv.get(be_ids[-1])
+            colq.append(qof.get(frozenset((a, b)), 0) if a is not None and b is not None else 0)
+        bverts = sorted(t["pos"])
+        bidx = {v: i + 1 for i, v in enumerate(bverts)}
+        for vid, r in fm.map_vid_to_row.items():
+            bv = inv.get(vid)
+            junctions.append(bidx.get(bv, 0))
+            for c in range(M.shape[1]):
+                if M[r, c] != 0.0 or M[r + 1, c] != 0.0:
+                    coefs.append([colq[c], bidx.get(bv, 0), fx(M[r, c]), fx(M[r + 1, c])])
+    # model cell index: position in the tissue's cell list; desc cell ids were assigned from that position
+    desc_cells = o["desc"]["C"]
+    pres = []
+    ids = o.get("ids_used") or {}
+    for pos_in_desc, (cid, _) in enumerate(desc_cells):
+        cell = frame.cells.get(cid)
+        if cell is not None and cell.pressure is not None and math.isfinite(float(cell.pressure)):
+            pres.append([o["model_cell_of_desc"][pos_in_desc] + 1, fx(float(cell.pressure))])
+    return {"case": case, "ev": "Phys", "run": run, "g": g, "tens": tens, "coefs": coefs, "junctions": sorted(junctions),
+            "internal": sorted(q_of(be) for be in internal), "pres": pres}
+
+
+def pair_events(case, spec, rng):
+    """two runs of the same abstract tissue: run 1 under (sim, ids, group) = spec['runA'], run 2 under spec['runB']"""
+    import forsys as fs
+    t = make_tissue(spec, rng)
+    k = spec.get("k", 3)
+    simA = make_similarity({"sim": spec["runA"].get("sim")}, rng)
+    if spec.get("require_conditioned"):
+        for _ in range(12):
+            if tension_tolerance(t, simA) is not None:
+                break
+            t = make_tissue(spec, rng)
+    evs = []
+    for run, rs in ((1, spec["runA"]), (2, spec["runB"])):
+        np.seterr(all="raise")
+        sim = make_similarity({"sim": rs.get("sim")}, rng) if run == 2 else simA
+        ids = rs.get("ids")
+        if ids:
+            ids = dict(ids, shuffle=random.Random(ids["shuffle"]) if ids.get("shuffle") else None)
+        group = _group(rs.get("group"))
+        tol = tension_tolerance(t, sim)
+        g = {"rot": [[fx(sim.rot[0][0]), fx(sim.rot[0][1])], [fx(sim.rot[1][0]), fx(sim.rot[1][1])]],
+             "kind": spec.get("pair_kind", "similarity")}
+        sub = static_events(case, t, k, sim, rng, spec["want"], build_opts=spec.get("build"), solve_opts=spec.get("solve"),
+                            ids=ids, resample=None, equilibrium=spec["tissue"]["kind"] == "equilibrium" and not spec["tissue"].get("noise"),
+                            group=group, with_pressure=spec.get("pressure", True), phys=(run, g),
+                            extra_env={"tolC": fx(tol) if tol else 0, "conditioned": tol is not None})
+        evs += sub
     return evs
